@@ -83,6 +83,19 @@ func (g *refGen) boolean(d int) ast.Node {
 		g.feat["not"] = true
 		return ast.Paren{X: ast.Unary{Op: "!", X: g.boolean(d - 1)}}
 	default:
+		if rapid.Bool().Draw(t, "tuple_index") {
+			// an element of a tuple of mixed types selected by a (possibly unknown) index and
+			// compared with a literal: the type of the selection is not known before the index is
+			g.feat["tuple_index_equality"] = true
+			elems := []ast.Node{g.lit(), g.str(0), ast.Bool{V: rapid.Bool().Draw(t, "tb")}, g.lit()}[:rapid.IntRange(2, 4).Draw(t, "ntuple")]
+			var other ast.Node
+			if rapid.Bool().Draw(t, "other_num") {
+				other = g.lit()
+			} else {
+				other = g.str(0)
+			}
+			return ast.Paren{X: ast.Binary{Op: rapid.SampledFrom([]string{"==", "!="}).Draw(t, "sop"), L: ast.Index{Coll: ast.Tuple{Elems: elems}, Key: ast.Var{Name: rapid.SampledFrom([]string{"n1", "n2", "n3"}).Draw(t, "iv")}}, R: other}}
+		}
 		g.feat["string_equality"] = true
 		return ast.Paren{X: ast.Binary{Op: rapid.SampledFrom([]string{"==", "!="}).Draw(t, "sop"), L: g.str(d - 1), R: g.str(d - 1)}}
 	}
